@@ -55,6 +55,57 @@ Definition py_pop_ {A} (l : list A) : res (list A) :=
   match l with [] => Err EOther | _ :: _ => Ok (removelast l) end.
 
 (* an Optional[int] used where an int is needed (arithmetic, argument): TypeError when it is None *)
+(* ---- UTF-16LE (third wave, FilesInfo names) ----
+   bytes.decode("utf-16LE"): pairs of bytes are code units (an odd length raises UnicodeDecodeError), a high surrogate must be
+   followed by a low one, a lone low surrogate raises *)
+Fixpoint py_utf16_units (bs : bytes) : res (list Z) :=
+  match bs with
+  | [] => Ok []
+  | [_] => Err EOther
+  | a :: b :: r => do t <- py_utf16_units r; Ok (a + 256 * b :: t)
+  end.
+Fixpoint py_utf16_points (us : list Z) : res (list Z) :=
+  match us with
+  | [] => Ok []
+  | u :: r =>
+      if (55296 <=? u) && (u <? 56320) then
+        match r with
+        | v :: r' => if (56320 <=? v) && (v <? 57344)
+                     then do t <- py_utf16_points r'; Ok (65536 + (u - 55296) * 1024 + (v - 56320) :: t)
+                     else Err EOther
+        | [] => Err EOther
+        end
+      else if (56320 <=? u) && (u <? 57344) then Err EOther
+      else do t <- py_utf16_points r; Ok (u :: t)
+  end.
+Definition py_decode_utf16le (bs : bytes) : res (list Z) := do us <- py_utf16_units bs; py_utf16_points us.
+(* c.encode("utf-16LE") for a one-character str c (a code point): surrogates cannot be encoded (UnicodeEncodeError) *)
+Definition py_encode_utf16le_char (c : Z) : res bytes :=
+  if (c <? 0) || (1114111 <? c) then Err EOther
+  else if (55296 <=? c) && (c <? 57344) then Err EOther
+  else if c <? 65536 then Ok [c mod 256; c / 256]
+  else let v := c - 65536 in
+       let hi := 55296 + v / 1024 in let lo := 56320 + v mod 1024 in
+       Ok [hi mod 256; hi / 256; lo mod 256; lo / 256].
+Fixpoint py_encode_utf16le (s : list Z) : res bytes :=
+  match s with
+  | [] => Ok []
+  | c :: r => do a <- py_encode_utf16le_char c; do b <- py_encode_utf16le r; Ok (a ++ b)
+  end.
+(* s.replace(a, b) for one-character strings a, b *)
+Definition py_replace_char (s : list Z) (a b : Z) : list Z := map (fun c => if c =? a then b else c) s.
+(* d.get(k) is not None, for a key that may be absent and may hold None *)
+Definition py_get_defined {A} (o : option (option A)) : bool := match o with Some (Some _) => true | _ => false end.
+
+(* for x, y in zip(l, m): x is replaced by f x y; the entries of l beyond the length of m stay *)
+Fixpoint py_zip_update {A B} (f : A -> B -> A) (l : list A) (m : list B) : list A :=
+  match l, m with
+  | a :: l', b :: m' => f a b :: py_zip_update f l' m'
+  | _, _ => l
+  end.
+(* next(it, default) *)
+Definition py_next_default {A} (l : list A) (d : A) : A * list A := match l with [] => (d, []) | x :: r => (x, r) end.
+
 Definition py_unwrap {A} (o : option A) : res A := match o with Some v => Ok v | None => Err EOther end.
 
 (* while c: body  on explicit fuel: Err EFuel when the fuel runs out while the condition still holds;
